@@ -19,7 +19,7 @@ def optNat (s : String) : Option Nat := if s == "-" then none else s.toNat?
 /-- the `h*` lines of a case grouped by step index (built once per case) -/
 abbrev Buckets := Array (Array (Array String))
 
-def hKeys : List String := ["hst", "hn", "he", "himp", "hop", "hret", "hlist"]
+def hKeys : List String := ["hst", "hn", "he", "himp", "hop", "hret", "hlist", "hdst", "hroute", "hwrite"]
 
 def mkBuckets (c : Case) : Buckets := Id.run do
   let mut b : Buckets := #[]
@@ -79,6 +79,7 @@ def applyOp (s : Imp) (op : Array String) : Option (Imp × Option (Option Nat ×
   match op[1]?.getD "" with
   | "nop" => some (s, none)
   | "resync" => some (s, none)
+  | "write" => some (s, none)
   | "split" => do
     let x ← num? (op[4]?.getD "")
     let y ← num? (op[5]?.getD "")
@@ -297,6 +298,32 @@ def checkOps (c0 : Case) : CaseResult := Id.run do
               diverge := diverge <|> some s!"step {i}: listJunctionsAndConnectors differs: model {js} {cs.map onStr} libavoid {jsC} {csC}"
           | none => diverge := diverge <|> some s!"step {i}: the model's listNode runs out of fuel / meets a dangling pointer"
         | _, _ => pure ()
+        -- the write-back of routes (`writeEdgesToConns`, both passes) vs. the model's `writeRoutes`
+        if kind == "write" then
+          let root := nat! ((ops.head?.getD #[])[2]?.getD "0")
+          let dst : DstEnds := ((stepLines c "hdst" i).head?.map (fun l => (l.extract 1 l.size).toList.filterMap (fun s =>
+            match s.splitOn ":" with
+            | [a, b] => some (nat! a, optNat b)
+            | _ => none))).getD []
+          let modelR := writeRoutes after.s.t dst root
+          let status := ((stepLines c "hwrite" i).head?.map (fun l => l[1]?.getD "?")).getD "missing"
+          stats := bumpStats stats s!"ops.write.{status}" 1
+          match modelR, status with
+          | none, "abort" => pure ()
+          | none, st => diverge := diverge <|> some s!"step {i} (write): the model's write-back stops (assertion conn->m_dst_connend / dangling pointer) but libavoid: {st}"
+          | some _, "abort" => diverge := diverge <|> some s!"step {i} (write): libavoid aborted in writeEdgesToConns but the model writes all routes"
+          | some rs, _ =>
+            for l in stepLines c "hroute" i do
+              let cid := nat! (l[1]?.getD "0")
+              let ptsC : List String := (l.extract 2 l.size).toList
+              let ptsM : List String := ((rs.get cid).map (fun p => [ratToString p.x, ratToString p.y])).flatten
+              let ptsC' : List String := ptsC.map (fun s => match num? s with
+                | some q => ratToString q
+                | none => s)
+              if ptsM != ptsC' then
+                diverge := diverge <|> some s!"step {i} (write): route of connector {cid}: model {ptsM} libavoid {ptsC'}"
+            if rs.length != (stepLines c "hroute" i).length then
+              diverge := diverge <|> some s!"step {i} (write): the model wrote {rs.length} routes, libavoid {(stepLines c "hroute" i).length}"
         -- what the theorems promise, decided on libavoid's own output
         if kinds.all treePreserving && beforeOk && !afterOk then
           specfail := specfail <|> some s!"step {i} ({kinds}): libavoid's hyperedge tree is not a well-formed tree after the operation (wfb={wfb after.s.t} isTree={isTree after.s.t.graphV after.s.t.graphE}; {after.s.t.nodes.length} nodes, {after.s.t.edges.length} edges)"
